@@ -6,6 +6,7 @@ import (
 	"fmt"
 	"go/token"
 	"go/types"
+	"sort"
 	"strconv"
 	"strings"
 
@@ -1963,4 +1964,330 @@ func runC08SpellCmp(c *Ctx) {
 		})
 	}
 	c.ok("spelling fields never compared with a constant name", token.NoPos, fmt.Sprintf("%d spelling fields of name-keyed map entries; none reaches an == / != / switch against a constant containing a letter", len(fields)))
+}
+
+// ---- C13.KEEPCALL ----
+
+// parseJob collects uses/with/secrets into a WorkflowCall and decides at the end whether the job is a call. The keys
+// that are foreign to a call job are reported on their own; if they also decided whether the call is attached to the
+// job, one foreign key would switch off every check of the job's `uses`, `with` and `secrets` (F97).
+func init() {
+	register(&Rule{ID: "C13.KEEPCALL", Min: 1, Doc: "the reusable-workflow call of a job is kept whenever `uses` is present, whatever other keys the job has", Run: runC13KeepCall})
+}
+
+func runC13KeepCall(c *Ctx) {
+	p := c.P
+	fn := p.Method("parser", "parseJob")
+	if fn == nil {
+		c.anchorMissing("(*parser).parseJob")
+		return
+	}
+	n := 0
+	eachInstr(fn, func(b *ssa.BasicBlock, _ int, in ssa.Instruction) {
+		st, ok := in.(*ssa.Store)
+		if !ok {
+			return
+		}
+		fa, ok := st.Addr.(*ssa.FieldAddr)
+		if !ok || fieldAddrName(fa) != "Job.WorkflowCall" {
+			return
+		}
+		if cst, ok := st.Val.(*ssa.Const); ok && cst.IsNil() {
+			return
+		}
+		n++
+		construct := "(*parser).parseJob|Job.WorkflowCall attached"
+		var other []string
+		heads := map[*ssa.BasicBlock]bool{}
+		for _, h := range loopHeaders(fn) {
+			heads[h] = true
+		}
+		for ifi := range controllingConds(b) {
+			if condIsNilTestOfField(ifi.Cond, "WorkflowCall.Uses") {
+				continue
+			}
+			if h := ifi.Block(); heads[h] && !naturalLoop(h)[b] {
+				continue // the exit of a loop that precedes the store
+			}
+			other = append(other, fmt.Sprintf("%s (line %d)", describeCond(ifi.Cond), p.Fset.Position(ifi.Cond.Pos()).Line))
+		}
+		if len(other) == 0 {
+			c.ok(construct, st.Pos(), "attached under no other condition than `uses` being present")
+		} else {
+			sort.Strings(other)
+			c.bad(construct, st.Pos(), "the call is only attached to the job when "+strings.Join(other, " and ")+": a key that is foreign to a call job (timeout-minutes, runs-on, ...) removes all checks of `uses`, `with` and `secrets` of that job")
+		}
+	})
+	if n == 0 {
+		c.bad("(*parser).parseJob|Job.WorkflowCall attached", fn.Pos(), "parseJob never stores the collected WorkflowCall into the job")
+	}
+}
+
+func condIsNilTestOfField(v ssa.Value, field string) bool {
+	bo, ok := v.(*ssa.BinOp)
+	if !ok || (bo.Op != token.EQL && bo.Op != token.NEQ) {
+		return false
+	}
+	for _, pr := range [][2]ssa.Value{{bo.X, bo.Y}, {bo.Y, bo.X}} {
+		if cst, ok := pr[1].(*ssa.Const); ok && cst.IsNil() {
+			if f, _ := fieldLoad(pr[0]); f == field {
+				return true
+			}
+		}
+	}
+	return false
+}
+
+func describeCond(v ssa.Value) string {
+	if bo, ok := v.(*ssa.BinOp); ok {
+		return describeKey(bo.X) + " " + bo.Op.String() + " " + describeKey(bo.Y)
+	}
+	return describeKey(v)
+}
+
+// ---- C16.VALIDUTF8 ----
+
+// The texts of library errors are cut by the libraries at byte offsets (yaml.v3 shortens a scalar to 7 bytes in its type
+// errors), so they can end in the middle of a character. encoding/json replaces such bytes with U+FFFD: the message that
+// {{json .}} prints is then not the message the linter returned (F99). The function that makes library texts one line is
+// the place every such text passes through.
+func init() {
+	register(&Rule{ID: "C16.VALIDUTF8", Min: 1, Doc: "the sanitiser of library error texts also yields valid UTF-8, which is what the JSON encoder can round-trip", Run: runC16ValidUTF8})
+}
+
+func runC16ValidUTF8(c *Ctx) {
+	p := c.P
+	for _, fn := range p.Funcs {
+		var repl *ssa.Call
+		eachInstr(fn, func(_ *ssa.BasicBlock, _ int, in ssa.Instruction) {
+			if call, ok := in.(*ssa.Call); ok && calleeFullName(&call.Call) == "(*strings.Replacer).Replace" && replacerCoversLineBreaks(p, call.Call.Args[0]) {
+				repl = call
+			}
+		})
+		if repl == nil {
+			continue
+		}
+		construct := FuncName(fn) + "|result is valid UTF-8"
+		valid := func(v ssa.Value) bool {
+			call, ok := v.(*ssa.Call)
+			if !ok {
+				return false
+			}
+			switch calleeFullName(&call.Call) {
+			case "strings.ToValidUTF8":
+				return true
+			case "(*strings.Replacer).Replace":
+				// replacing line breaks keeps validity when the input was valid
+				if in, ok := call.Call.Args[1].(*ssa.Call); ok && calleeFullName(&in.Call) == "strings.ToValidUTF8" {
+					return true
+				}
+			}
+			return false
+		}
+		all, n := true, 0
+		for _, b := range fn.Blocks {
+			if ret, ok := b.Instrs[len(b.Instrs)-1].(*ssa.Return); ok && len(ret.Results) > 0 {
+				n++
+				if !valid(ret.Results[0]) {
+					all = false
+				}
+			}
+		}
+		if n > 0 && all {
+			c.ok(construct, fn.Pos(), "every result passes through strings.ToValidUTF8")
+		} else {
+			c.bad(construct, repl.Pos(), "the text of a library error is made one line but may still end in half a character (yaml.v3 cuts scalars at 7 bytes): the JSON encoder turns those bytes into U+FFFD, so `-format '{{json .}}'` does not give back the message the linter returned")
+		}
+	}
+}
+
+// ---- C14.LITTYPE ----
+
+// The type of a literal `with:` value of a reusable workflow call is derived from its text. YAML decides it: a quoted
+// scalar is a string; nan, inf, infinity and hexadecimal floats - which strconv.ParseFloat accepts - are strings (F98).
+func init() {
+	register(&Rule{ID: "C14.LITTYPE", Min: 2, Doc: "the literal type of a `with:` value follows YAML: number only for YAML numbers, null/bool never for a quoted scalar", Run: runC14LitType})
+}
+
+func runC14LitType(c *Ctx) {
+	p := c.P
+	fn := p.Method("RuleExpression", "checkWorkflowCall")
+	if fn == nil {
+		c.anchorMissing("(*RuleExpression).checkWorkflowCall")
+		return
+	}
+	// (1) no strconv.ParseFloat directly on scalar text in the functions that type literals
+	typers := []*ssa.Function{fn}
+	if f := p.Method("RuleExpression", "checkRawYAMLString"); f != nil {
+		typers = append(typers, f)
+	}
+	for _, f := range typers {
+		construct := FuncName(f) + "|number verdict of a literal"
+		bare := token.NoPos
+		eachInstr(f, func(_ *ssa.BasicBlock, _ int, in ssa.Instruction) {
+			if call, ok := in.(*ssa.Call); ok && calleeFullName(&call.Call) == "strconv.ParseFloat" {
+				bare = call.Pos()
+			}
+		})
+		if bare != token.NoPos {
+			c.bad(construct, bare, "the text of a scalar is a number whenever strconv.ParseFloat accepts it: nan, inf, Infinity and 0x1p4 are YAML strings, so `with: {num: nan}` is not reported for a number input (and a matrix value nan is typed number)")
+			continue
+		}
+		// the helper that decides: ParseFloat there must come after a scan of the characters of the same string
+		helperOK, helper := false, ""
+		eachInstr(f, func(_ *ssa.BasicBlock, _ int, in ssa.Instruction) {
+			call, ok := in.(*ssa.Call)
+			if !ok {
+				return
+			}
+			g := staticCallee(&call.Call)
+			if g == nil || !inModule(g) || g.Blocks == nil {
+				return
+			}
+			var pf *ssa.Call
+			eachInstr(g, func(_ *ssa.BasicBlock, _ int, in2 ssa.Instruction) {
+				if c2, ok := in2.(*ssa.Call); ok && calleeFullName(&c2.Call) == "strconv.ParseFloat" {
+					pf = c2
+				}
+			})
+			if pf == nil {
+				return
+			}
+			helper = FuncName(g)
+			// a filter before the call: a range over the string (rune loop) or a regexp match dominating the call
+			eachInstr(g, func(b *ssa.BasicBlock, _ int, in2 ssa.Instruction) {
+				switch x := in2.(type) {
+				case *ssa.Range:
+					if bt, ok := x.X.Type().Underlying().(*types.Basic); ok && bt.Info()&types.IsString != 0 && b.Dominates(pf.Block()) {
+						helperOK = true
+					}
+				case *ssa.Call:
+					if n := calleeFullName(&x.Call); (n == "(*regexp.Regexp).MatchString" || n == "(*regexp.Regexp).Match") && x.Block().Dominates(pf.Block()) {
+						helperOK = true
+					}
+				}
+			})
+		})
+		if helper == "" {
+			c.ok(construct, f.Pos(), "no strconv.ParseFloat decides the type of a literal here")
+		} else if helperOK {
+			c.ok(construct, f.Pos(), helper+" filters the characters of the text before strconv.ParseFloat is asked")
+		} else {
+			c.bad(construct, f.Pos(), helper+" hands the text to strconv.ParseFloat without a filter: nan, inf, Infinity and hexadecimal floats are YAML strings")
+		}
+	}
+	// (2) the NullType / BoolType verdicts are only given when the scalar is not quoted
+	construct := "(*RuleExpression).checkWorkflowCall|null/bool verdict of a literal"
+	heads := map[*ssa.BasicBlock]bool{}
+	for _, h := range loopHeaders(fn) {
+		heads[h] = true
+	}
+	n, unguarded, bad := 0, 0, fn.Pos()
+	eachInstr(fn, func(b *ssa.BasicBlock, _ int, in ssa.Instruction) {
+		mi, ok := in.(*ssa.MakeInterface)
+		if !ok {
+			return
+		}
+		ts := typeStr(mi.X.Type())
+		if ts != "NullType" && ts != "BoolType" {
+			return
+		}
+		n++
+		guarded := false
+		for ifi, outcome := range controllingConds(b) {
+			if f, _ := fieldLoad(ifi.Cond); f == "String.Quoted" && !outcome {
+				guarded = true
+			}
+			if u, ok := ifi.Cond.(*ssa.UnOp); ok && u.Op == token.NOT {
+				if f, _ := fieldLoad(u.X); f == "String.Quoted" && outcome {
+					guarded = true
+				}
+			}
+		}
+		if !guarded {
+			unguarded++
+			for _, in2 := range b.Instrs {
+				if in2.Pos() != token.NoPos {
+					bad = in2.Pos()
+					break
+				}
+			}
+		}
+	})
+	switch {
+	case n == 0:
+		c.anchorMissing("NullType/BoolType literal verdicts in checkWorkflowCall")
+	case unguarded > 0:
+		c.bad(construct, bad, "a quoted scalar whose text is null/true/false is typed null/bool: `with: {str: \"true\"}` is reported as a bool passed to a string input although YAML makes it a string")
+	default:
+		c.ok(construct, fn.Pos(), fmt.Sprintf("%d null/bool verdicts, each only reached when String.Quoted is false", n))
+	}
+}
+
+// ---- C16.ENCODING ----
+
+// yaml.v3 decodes UTF-16 sources (detected by their byte order mark) and counts lines and columns in the decoded text. The
+// snippet is cut out of the bytes handed to the printer, so those bytes have to be decoded the same way first (F101).
+func init() {
+	register(&Rule{ID: "C16.ENCODING", Min: 1, Doc: "the snippet is cut from the source decoded as the YAML reader decodes it (UTF-16 by byte order mark)", Run: runC16Encoding})
+}
+
+func runC16Encoding(c *Ctx) {
+	p := c.P
+	fn := p.Method("Error", "getLine")
+	if fn == nil {
+		c.anchorMissing("(*Error).getLine")
+		return
+	}
+	construct := "(*Error).getLine|source decoded before it is split into lines"
+	// the reader the line scanner works on
+	var src ssa.Value
+	var at token.Pos
+	eachInstr(fn, func(_ *ssa.BasicBlock, _ int, in ssa.Instruction) {
+		if call, ok := in.(*ssa.Call); ok {
+			switch calleeFullName(&call.Call) {
+			case "bytes.NewReader", "bytes.NewBuffer":
+				src, at = call.Call.Args[0], call.Pos()
+			}
+		}
+	})
+	if src == nil {
+		c.anchorMissing("bytes.NewReader(source) in (*Error).getLine")
+		return
+	}
+	decodes := func(g *ssa.Function) bool {
+		utf16, ff, fe := false, false, false
+		eachInstr(g, func(_ *ssa.BasicBlock, _ int, in ssa.Instruction) {
+			switch x := in.(type) {
+			case *ssa.Call:
+				if strings.HasPrefix(calleeFullName(&x.Call), "unicode/utf16.") {
+					utf16 = true
+				}
+			case *ssa.BinOp:
+				if x.Op == token.EQL || x.Op == token.NEQ {
+					for _, o := range []ssa.Value{x.X, x.Y} {
+						if k, ok := constInt(o); ok {
+							ff = ff || k == 0xff
+							fe = fe || k == 0xfe
+						}
+					}
+				}
+			}
+		})
+		return utf16 && ff && fe
+	}
+	ok := false
+	if call, isCall := src.(*ssa.Call); isCall {
+		if g := staticCallee(&call.Call); g != nil && inModule(g) && g.Blocks != nil && decodes(g) {
+			ok = true
+		}
+	}
+	if !ok && decodes(fn) {
+		ok = true
+	}
+	if ok {
+		c.ok(construct, at, "the bytes pass through a function that tests for the byte order marks FF FE / FE FF and decodes with unicode/utf16")
+	} else {
+		c.bad(construct, at, "the snippet is cut out of the raw bytes: for a UTF-16 workflow (which the YAML reader decodes by its byte order mark) the snippet is a run of NUL-separated bytes, possibly of another line, and the caret is misplaced")
+	}
 }
